@@ -36,6 +36,7 @@ fn main() {
     let t0 = std::time::Instant::now();
     let mut report = Report::new(&prop, "");
     let res = std::panic::catch_unwind(std::panic::AssertUnwindSafe(|| match prop.as_str() {
+        "C15" => props::c15::run(&mut ctx, &mut report),
         "C21" => props::c21::run(&mut ctx, &mut report),
         "C22" => props::c22::run(&mut ctx, &mut report),
         "C02" | "C03" | "C04" | "C05" | "C06" | "C07" | "C09" | "C10" | "C19" | "C20" => props::hist::run_property(&prop, &mut ctx, &mut report),
